@@ -10,7 +10,7 @@ import cassandra.cqltypes  # noqa: F401
 import cassandra.protocol  # noqa: F401
 
 from spec import proto
-from vlib.harness import hyp_part
+from vlib.harness import EnumPart, hyp_part
 
 PID = "C04"
 TITLE = "Response frames decode to exactly what the server sent"
@@ -25,7 +25,8 @@ RULE = ("A case is (protocol version in {1,2,3,4,5,6,0x41,0x42}, stream id, opti
         "caller-supplied metadata / new metadata id on v5,v6,DSE_V2 / continuous page on DSE) / prepared (pk indexes v4+, result "
         "metadata v2+, metadata id v5/DSE_V2); ERROR for each of the 20 registered codes with its code-specific body "
         "(failure count before v5, reason map from v5), plus 0x1700 and an unassigned code; EVENT x3; SUPPORTED; READY; "
-        "AUTHENTICATE; AUTH_CHALLENGE; AUTH_SUCCESS.  Non-trivial: at least two header extras, or rows with >= 2 columns "
+        "AUTHENTICATE; AUTH_CHALLENGE; AUTH_SUCCESS.  An enumerated part covers every (error code, version) pair with three fixed "
+        "field variants.  Non-trivial: at least two header extras, or rows with >= 2 columns "
         "including a nested type or >= 2 metadata flags, or an ERROR with a code-specific body, or a prepared result with pk "
         "indexes, or an event / schema change with a target name.")
 ASSUMPTIONS = [
@@ -254,17 +255,60 @@ def _schema_change(draw, v):
     return d
 
 
-@st.composite
-def _error(draw, v):
+def _codes_for(v):
+    """error codes a server speaking version v can send (spec sections 9 of v1..v5, DSE additions) + one unassigned"""
     codes = [0x0000, 0x000A, 0x0100, 0x1000, 0x1001, 0x1002, 0x1003, 0x1100, 0x1200, 0x2000, 0x2100, 0x2200, 0x2300,
-             0x2400, 0x2500, 0x7777, 0x1000, 0x1100, 0x1200, 0x2400, 0x2500]
+             0x2400, 0x2500, 0x7777]
     if v >= 4:
-        codes += [0x1300, 0x1400, 0x1500, 0x1300, 0x1500]
+        codes += [0x1300, 0x1400, 0x1500]
     if v >= 5:
         codes += [0x1600, 0x1700]
     if proto.is_dse(v):
         codes.append(0x8000)
-    code = draw(st.sampled_from(codes))
+    return codes
+
+
+def _error_matrix_cases(v):
+    """every (code, version) pair with three fixed field variants: zeros, boundary values, mixed + header extras"""
+    for code in _codes_for(v):
+        for variant in range(3):
+            big = [0, 2 ** 31 - 1, 3][variant]
+            d = {"op": "ERROR", "code": code, "message": ["", "é中 \U0001f600 \"quoted\"", "unconfigured table t"][variant]}
+            cl = [0, 10, 6][variant]
+            if code == 0x1000:
+                d.update(consistency=cl, required=big, alive=[0, 1, 2][variant])
+            elif code in (0x1100, 0x1200, 0x1300, 0x1500, 0x1700):
+                d.update(consistency=cl, received=[0, 1, 2][variant], blockfor=big)
+                if code in (0x1300, 0x1500):
+                    if proto.has_reason_map(v):
+                        d["reasons"] = [[], [["127.0.0.1", 0], ["::1", 0xFFFF]], [["10.0.0.200", 2]]][variant]
+                    else:
+                        d["failures"] = big
+                if code in (0x1100, 0x1500):
+                    d["write_type"] = ["SIMPLE", "CAS", "BATCH_LOG"][variant]
+                    if code == 0x1100 and d["write_type"] == "CAS" and v in (5, 6):
+                        d["contentions"] = 7
+                if code in (0x1200, 0x1300):
+                    d["data_present"] = variant != 1
+            elif code == 0x1400:
+                d.update(keyspace="ks", function=["f", "é中x", "Fn"][variant], arg_types=[[], ["int", "text"], ["map<int, text>"]][variant])
+            elif code == 0x2400:
+                d.update(keyspace="ks", table=["", "t", "Tbl"][variant])
+            elif code == 0x2500:
+                d["id"] = ["00", "ab" * 16, "ff" * 20][variant]
+            case = {"version": v, "stream": [0, 127, 1][variant], "resp": d, "trace": None, "warnings": None, "payload": None,
+                    "compress": False}
+            if variant == 2:
+                case["trace"] = "0123456789abcdef0123456789abcdef"
+                if v >= 4:
+                    case["warnings"] = ["w1", "w2"]
+                    case["payload"] = [["k", "00ff"]]
+            yield case
+
+
+@st.composite
+def _error(draw, v):
+    code = draw(st.sampled_from(_codes_for(v)))
     d = {"op": "ERROR", "code": code, "message": draw(_text)}
     if code == 0x1000:
         d.update(consistency=draw(_cl), required=draw(_i32nn), alive=draw(_i32nn))
@@ -855,4 +899,5 @@ def _check_prepared(ctx, K, msg, r, v, eq):
 
 
 def parts(tier):
-    return [hyp_part("responses", s_response, interpret, tier, quick=600, thorough=20000, quick_shards=8, thorough_shards=16)]
+    return [EnumPart("error-matrix", VERSIONS, _error_matrix_cases, interpret),
+            hyp_part("responses", s_response, interpret, tier, quick=600, thorough=12000, quick_shards=8, thorough_shards=16)]
